@@ -7,7 +7,7 @@
    addition pinned by hand (tag_char, name_doc, jd_doc, boot_doc_limit). *)
 From Coq Require Import List ZArith NArith Bool String.
 From FIM Require Import Base.Str Base.Regex Base.RegexSound Model.Labels16Types Gen.UnicodeClasses Gen.LabelValidators
-  Model.Labels16 Model.Labels16Spec Proofs.Validate16 Proofs.Validate16Misc.
+  Model.Labels16 Model.Labels16Spec Proofs.Validate16 Proofs.Validate16Misc Proofs.Validate16Int.
 Import ListNotations.
 
 (* ---- the tie's static part: the translator recognised every construct; every call site matches the whole string ---- *)
@@ -80,6 +80,25 @@ Print Assumptions C16_rejected_value_changes_nothing.
 Theorem C16_range_predicate_meaning : forall rk s, range_check rk s = None <-> range_spec rk s.
 Proof. exact range_check_spec. Qed.
 Print Assumptions C16_range_predicate_meaning.
+
+(* int(str) as the range predicates use it: exactly the declarative integer literals (white space, sign,
+   digits of any script with single underscores between digits, digit-count limit), with their value *)
+Theorem C16_int_parsing : forall s z, py_int s = Some z <-> int_literal s z.
+Proof. exact py_int_spec. Qed.
+Print Assumptions C16_int_parsing.
+
+Theorem C16_int_of_plain_digits : forall s ds, s <> [] -> Forall2 (fun c d => digit_val c = Some d) s ds ->
+  (int_max_str_digits = 0%N \/ (N.of_nat (List.length ds) <= int_max_str_digits)%N) ->
+  py_int s = Some (Z.of_N (dec_value ds)).
+Proof. exact py_int_plain_digits. Qed.
+Print Assumptions C16_int_of_plain_digits.
+
+(* one numeric field spelled out: a VLAN label is 1..4 decimal digits denoting 0..4096 *)
+Theorem C16_vlan_domain_pinned : forall s,
+  scalar_accepted (S"vlan") s = true <->
+  (1 <= List.length s <= 4)%nat /\ forallb is_re_digit s = true /\ exists z, int_literal s z /\ (0 <= z <= 4096)%Z.
+Proof. exact vlan_domain_pinned. Qed.
+Print Assumptions C16_vlan_domain_pinned.
 
 (* _set_fields keeps "every field is None or documented" even when it raises half way *)
 Theorem C16_set_fields_invariant : forall forgiving kws st,
@@ -154,6 +173,28 @@ Print Assumptions C16_name_classes_covered.
 Theorem C16_set_name_stores_argument : forall cls v s, set_name cls v = Ok s -> v = SStr s.
 Proof. exact set_name_stores_argument. Qed.
 Print Assumptions C16_set_name_stores_argument.
+
+(* ---- names assigned through an element handle (ModelElement.name setter, rename) ----
+   FULL STATEMENT, false of the code (refuted below): every name readable after the call -- from the handle or
+   from the model -- is in the class's language:
+     forall cls r m old s h g e, lookup cls name_rules = Some (r, m) -> re_lang r old ->
+       elem_set_name cls old s = ((h, g), e) -> re_lang r h /\ re_lang r g.
+   What holds: the name in the model is always documented and changes exactly when the call succeeds; only the
+   handle's cached copy keeps a rejected string, and only when the call raised. *)
+Theorem C16_element_name_in_model_partial : forall cls r m old s h g e,
+  lookup cls name_rules = Some (r, m) -> re_lang r old -> elem_set_name cls old s = ((h, g), e) ->
+  re_lang r g /\ (e = None -> h = s /\ g = s /\ re_lang r s) /\ (e <> None -> g = old /\ ~ re_lang r s).
+Proof. exact elem_name_graph_partial. Qed.
+Print Assumptions C16_element_name_in_model_partial.
+
+Theorem C16_handle_name_refuted :
+  exists cls old s, set_name cls (SStr old) = Ok old /\
+    match elem_set_name cls old s with
+    | ((h, g), Some _) => set_name cls (SStr h) <> Ok h /\ g = old
+    | _ => False
+    end.
+Proof. exact elem_name_handle_refuted. Qed.
+Print Assumptions C16_handle_name_refuted.
 
 (* ---- boot script ---- *)
 Theorem C16_boot_script : forall s, set_boot_script (SStr s) = Ok (Some s) <-> (List.length s < boot_doc_limit)%nat.
